@@ -61,6 +61,9 @@ func emptyState(svc string) StateRec {
 		Manifests: []int{}, Versions: []int{}}
 }
 
+// hangBudget is the number of full-length waits for a missing Submit return this process still affords.
+var hangBudget = 3
+
 // runner drives one environment step by step.
 type runner struct {
 	e         *env
@@ -76,17 +79,19 @@ type runner struct {
 	mgrLast   *veriftrace.Event // last state event of the current manager
 	exited    bool              // current manager ran its exit path
 	managers  int
+	watchdogs int
 	svcDown   bool
 	itersWant int
 	itersSeen int
 	fetch     *fetchCall
 	seen      map[string]int // manager/service events seen in the current step
+	gaveUp    map[int]bool   // requests reported missing
 	rec       *Rec
 }
 
 func newRunner(e *env, script int, stepTO, hangTO time.Duration) *runner {
 	return &runner{e: e, stepTO: stepTO, hangTO: hangTO, script: script, sub: map[int]int{}, chReq: map[string]int{},
-		open: map[int]bool{}}
+		open: map[int]bool{}, gaveUp: map[int]bool{}}
 }
 
 func kvs(ev *veriftrace.Event, k string) string {
@@ -110,9 +115,12 @@ func (r *runner) absorb(ev veriftrace.Event) {
 		if n, ok := ev.KV["managers"].(int); ok {
 			r.managers = n
 		}
-		if ev.Event == "iter" {
+		wd, _ := ev.KV["watchdogs"].(int)
+		if ev.Event == "iter" && wd >= r.watchdogs {
+			// (an iteration that collected a finished watchdog is nobody's stimulus: not counted)
 			r.itersSeen++
 		}
+		r.watchdogs = wd
 		r.seen["svc:"+ev.Event]++
 		return
 	}
@@ -298,6 +306,15 @@ func (r *runner) do(i int, s Step) (*Rec, bool) {
 	}
 
 	switch s.Name {
+	case "PreLease":
+		// the lease was handed to the service by fetchExistingLeases, before its loop started
+		// (no service iteration, nothing published, nothing to answer: the step is the manager's iteration alone)
+		if !r.await(func() bool { return r.seen["mgr:lease"] > 0 }) {
+			return fail("hook lease (pre-existing)")
+		}
+		r.managers = 1
+		rec.St = r.state()
+		return rec, true
 	case "LeaseWon":
 		_ = r.publish(e.leaseWon(s.Arg))
 		if !r.await(mgrSaw("lease")) {
@@ -457,7 +474,13 @@ wait:
 			want[q] = true
 		}
 	}
-	deadline := time.NewTimer(r.hangTO)
+	hangTO := r.hangTO
+	if hangBudget <= 0 {
+		// this process has already sat out several full waits: later sightings are recorded after a short wait
+		// and re-examined in isolation, with full (doubled) timeouts, by the check
+		hangTO = r.hangTO / 20
+	}
+	deadline := time.NewTimer(hangTO)
 	for len(want) > 0 {
 		select {
 		case ret := <-e.returns:
@@ -467,9 +490,12 @@ wait:
 		case <-deadline.C:
 			for q := range want {
 				rec.Missing = append(rec.Missing, q)
+				delete(r.open, q) // reported once; not awaited again
+				r.gaveUp[q] = true
 			}
 			sort.Ints(rec.Missing)
 			want = nil
+			hangBudget--
 		}
 	}
 	deadline.Stop()
